@@ -300,8 +300,12 @@ func (x *ctx) externalCall(st *state, fr *frame, key string, callee *ssa.Functio
 		}
 		if key == "errors.Is" && len(ts) == 2 {
 			// errors.Is(nil, t) is false for non-nil t; errors.Is(e, e) is true
-			st.define(implies(and(eq(ts[0], null), not(eq(ts[1], null))), not(r.s)))
-			st.define(implies(and(eq(ts[0], ts[1])), r.s))
+			if ts[1].srt.name == ts[0].srt.name {
+				st.define(implies(and(eq(ts[0], null), not(eq(ts[1], null))), not(r.s)))
+				st.define(implies(and(eq(ts[0], ts[1])), r.s))
+			} else {
+				st.define(implies(eq(ts[0], null), not(r.s))) // the target is a non-nil constant error value
+			}
 		}
 		return x.ret1(st, scalar(r))
 	}
@@ -474,7 +478,7 @@ func (x *ctx) modelModKeys(key string, callee *ssa.Function, c *ssa.CallCommon) 
 		return ks, true
 	}
 	if strings.HasSuffix(key, "internal/hashmap.Map.Compute") {
-		return []string{"G:tbl", "G:lpCur", "G:lpNew", "G:lpCount"}, false // plus the callback's effects: handled by scanning the closure
+		return []string{"G:tbl", "G:calls", "G:lpCur", "G:lpNew", "G:lpCount", "G:clpCur", "G:clpNew", "G:clpCount"}, false // plus the callback's effects: handled by scanning the closure
 	}
 	return nil, false
 }
@@ -574,11 +578,17 @@ func (x *ctx) tableModel(st *state, fr *frame, op string, callee *ssa.Function, 
 			nv := x.asTerm(o.ret, valT)
 			x.oblige(o.st, "table-key-wf", "", "Compute", x.tblWF(o.st, nv, k, valT), "a stored entry must carry the key it is stored under")
 			x.ghostWrite(o.st, x.tblName(valT), []term{m, k}, nv)
-			x.ghostWrite(o.st, "ghost_lpCur", []term{m}, cur)
-			x.ghostWrite(o.st, "ghost_lpNew", []term{m}, nv)
-			cnt := x.ghostGet(o.st, "ghost_lpCount", []srtT{sRef}, bvSort(64), []term{m})
-			x.ghostWrite(o.st, "ghost_lpCount", []term{m}, x.binop(token.ADD, cnt, mkbv(1, 64), types.Typ[types.Int]))
-			o.st.snaps["lpend"] = o.st.clone()
+			pfx := "ghost_lp"
+			if !isNodeTbl {
+				pfx = "ghost_clp"
+			}
+			x.ghostWrite(o.st, pfx+"Cur", []term{m}, cur)
+			x.ghostWrite(o.st, pfx+"New", []term{m}, nv)
+			cnt := x.ghostGet(o.st, pfx+"Count", []srtT{sRef}, bvSort(64), []term{m})
+			x.ghostWrite(o.st, pfx+"Count", []term{m}, x.binop(token.ADD, cnt, mkbv(1, 64), types.Typ[types.Int]))
+			if isNodeTbl {
+				o.st.snaps["lpend"] = o.st.clone()
+			}
 			x.interfere(o.st)
 			res = append(res, outcome{st: o.st, ret: scalar(nv)})
 		}
